@@ -156,6 +156,8 @@ pub mod e2n;
 pub mod battery;
 #[cfg(not(kani))]
 pub mod c02;
+#[cfg(not(kani))]
+pub mod c03n;
 
 harnesses! {
     c04_datum_prefix_5 [stub 8] => c04::datum_prefix_5;
@@ -186,6 +188,7 @@ harnesses! {
     e2n_c19_collateral [native 0] => e2n::c19_collateral;
     e2n_bigint_narrowing [native 0] => e2n::bigint_narrowing;
     e2n_bigint_form [native 0] => e2n::bigint_form;
+    e2n_c03_struct_forms [native 0] => c03n::c03_struct_forms;
     e2n_value_compare [native 0] => e2n::value_compare;
     e2n_c11_byron_attributes [native 0] => e2n::c11_byron_attributes;
     e2n_value_arith [native 0] => e2n::value_arith;
